@@ -878,6 +878,24 @@ func (s *SpecValidator) expandedAnalyzer() *analysis.Spec {
 	return s.analyzer
 }
 
+// scratchSchema returns a deep copy of a schema that belongs to the validated document.
+//
+// Building a schema validator expands the $ref found under the schema in place: this must
+// happen on a copy, never in the caller's document.
+func scratchSchema(src *spec.Schema) *spec.Schema {
+	b, err := json.Marshal(src)
+	if err != nil {
+		return src
+	}
+
+	dst := new(spec.Schema)
+	if err := json.Unmarshal(b, dst); err != nil {
+		return src
+	}
+
+	return dst
+}
+
 func deepCloneSchema(src spec.Schema) (spec.Schema, error) {
 	var b bytes.Buffer
 	if err := gob.NewEncoder(&b).Encode(src); err != nil {
